@@ -58,7 +58,7 @@ func (c *ctx) guardsReturning(rel string, n ast.Node, what string) []string {
 	return out
 }
 
-func mustFunc(f *ast.File, recv, name string) (*ast.FuncDecl, error) {
+func pullerMustFunc(f *ast.File, recv, name string) (*ast.FuncDecl, error) {
 	fd := findFunc(f, recv, name)
 	if fd == nil || fd.Body == nil {
 		return nil, fmt.Errorf("function %s.%s not found", recv, name)
@@ -73,27 +73,27 @@ func init() {
 		if err != nil {
 			return err
 		}
-		push, err := mustFunc(rf, "", "Push")
+		push, err := pullerMustFunc(rf, "", "Push")
 		if err != nil {
 			return err
 		}
 		c.defStringList("pushCalls", callsWithPrefix(push.Body, "destDB.", "srcDB."))
-		pt, err := mustFunc(rf, "", "PushTag")
+		pt, err := pullerMustFunc(rf, "", "PushTag")
 		if err != nil {
 			return err
 		}
 		c.defStringList("pushTagCalls", callsWithPrefix(pt.Body, "destDB.", "srcDB."))
-		fr, err := mustFunc(rf, "", "fetchRefSpecsWithDepth")
+		fr, err := pullerMustFunc(rf, "", "fetchRefSpecsWithDepth")
 		if err != nil {
 			return err
 		}
 		c.defStringList("fetchCalls", callsWithPrefix(fr.Body, "dbData.Ddb."))
-		fft, err := mustFunc(rf, "", "FetchFollowTags")
+		fft, err := pullerMustFunc(rf, "", "FetchFollowTags")
 		if err != nil {
 			return err
 		}
 		c.defStringList("fetchFollowTagsCalls", callsWithPrefix(fft.Body, "FetchTag", "destDB.SetHead"))
-		sr, err := mustFunc(rf, "", "SyncRoots")
+		sr, err := pullerMustFunc(rf, "", "SyncRoots")
 		if err != nil {
 			return err
 		}
@@ -104,7 +104,7 @@ func init() {
 		if err != nil {
 			return err
 		}
-		uf, err := mustFunc(wf, "PullTableFileWriter", "uploadAndFinalizeThread")
+		uf, err := pullerMustFunc(wf, "PullTableFileWriter", "uploadAndFinalizeThread")
 		if err != nil {
 			return err
 		}
@@ -120,7 +120,7 @@ func init() {
 		}
 		c.defStringList("writerDestCalls", destCalls)
 		// uploadFilesAndAccumulateUpdates returns only after eg.Wait() and returns the error
-		ufa, err := mustFunc(wf, "PullTableFileWriter", "uploadFilesAndAccumulateUpdates")
+		ufa, err := pullerMustFunc(wf, "PullTableFileWriter", "uploadFilesAndAccumulateUpdates")
 		if err != nil {
 			return err
 		}
@@ -132,7 +132,7 @@ func init() {
 		if err != nil {
 			return err
 		}
-		pl, err := mustFunc(pf, "Puller", "Pull")
+		pl, err := pullerMustFunc(pf, "Puller", "Pull")
 		if err != nil {
 			return err
 		}
@@ -143,7 +143,7 @@ func init() {
 			return fmt.Errorf("Puller.Pull: last statement is not a single-value return")
 		}
 		c.defString("pullReturns", c.src(plf, rs.Results[0]))
-		np, err := mustFunc(pf, "", "NewPuller")
+		np, err := pullerMustFunc(pf, "", "NewPuller")
 		if err != nil {
 			return err
 		}
@@ -156,7 +156,7 @@ func init() {
 		if err != nil {
 			return err
 		}
-		cl, err := mustFunc(cf, "", "clone")
+		cl, err := pullerMustFunc(cf, "", "clone")
 		if err != nil {
 			return err
 		}
@@ -174,7 +174,7 @@ func init() {
 		if err != nil {
 			return err
 		}
-		ff, err := mustFunc(df, "database", "doFastForward")
+		ff, err := pullerMustFunc(df, "database", "doFastForward")
 		if err != nil {
 			return err
 		}
@@ -182,13 +182,13 @@ func init() {
 		c.defStringList("ffAlreadyCommittedGuards", c.guardsReturning(dbf, ff.Body, "ErrAlreadyCommitted"))
 		c.defStringList("ffNotFoundGuards", c.guardsReturning(dbf, ff.Body, "not found"))
 		c.defStringList("ffCalls", callsWithPrefix(ff.Body, "db.readHead", "FindCommonAncestor", "db.update", "ae.Update"))
-		sh, err := mustFunc(df, "database", "doSetHead")
+		sh, err := pullerMustFunc(df, "database", "doSetHead")
 		if err != nil {
 			return err
 		}
 		c.defStringList("setHeadNotInStoreGuards", c.guardsReturning(dbf, sh.Body, "not in the store"))
 		c.defStringList("setHeadCalls", callsWithPrefix(sh.Body, "db.readHead", "db.update", "ae.Update"))
-		up, err := mustFunc(df, "database", "update")
+		up, err := pullerMustFunc(df, "database", "update")
 		if err != nil {
 			return err
 		}
@@ -200,7 +200,7 @@ func init() {
 		if err != nil {
 			return err
 		}
-		at, err := mustFunc(sf, "NomsBlockStore", "addTableFilesToManifest")
+		at, err := pullerMustFunc(sf, "NomsBlockStore", "addTableFilesToManifest")
 		if err != nil {
 			return err
 		}
@@ -218,7 +218,7 @@ func init() {
 			return true
 		})
 		c.defStringList("refCheckGuard", refGuard)
-		pub, err := mustFunc(sf, "NomsBlockStore", "AddTableFilesToManifest")
+		pub, err := pullerMustFunc(sf, "NomsBlockStore", "AddTableFilesToManifest")
 		if err != nil {
 			return err
 		}
@@ -240,7 +240,7 @@ func init() {
 		if err != nil {
 			return err
 		}
-		ph, err := mustFunc(ddb, "", "pullHash")
+		ph, err := pullerMustFunc(ddb, "", "pullHash")
 		if err != nil {
 			return err
 		}
